@@ -61,8 +61,7 @@ def is_filter(h_res, res, n, src_item, phi, emb, inv, h_src=None):
     i, j, k = L.fresh("i", I), L.fresh("j", I), L.fresh("k", I)
     return And(
         res != LNONE, ln >= 0, ln <= n,
-        ForAll([i], Implies(And(0 <= i, i < ln), And(0 <= emb(i), emb(i) < n, h_res.litem(res, i) == src_item(emb(i)), phi(src_item(emb(i))))), patterns=[h_res.litem(res, i)]),
-        ForAll([i], Implies(And(0 <= i, i < ln), And(0 <= emb(i), emb(i) < n, inv(emb(i)) == i)), patterns=[emb(i)]),
+        ForAll([i], Implies(And(0 <= i, i < ln), And(0 <= emb(i), emb(i) < n, h_res.litem(res, i) == src_item(emb(i)), phi(src_item(emb(i))), inv(emb(i)) == i)), patterns=[h_res.litem(res, i), emb(i)]),
         ForAll([i, j], Implies(And(0 <= i, i < j, j < ln), emb(i) < emb(j)), patterns=[z3.MultiPattern(emb(i), emb(j))]),
         ForAll([k], Implies(And(0 <= k, k < n, phi(src_item(k))), And(0 <= inv(k), inv(k) < ln, emb(inv(k)) == k, h_res.litem(res, inv(k)) == src_item(k))), patterns=[inv(k), src_item(k)]),
         # ground consequences that E-matching would not reach by itself
